@@ -36,6 +36,11 @@ pub struct Case {
     /// channel instances a connection holds)
     #[serde(default)]
     pub reverse_connect: bool,
+    /// 0: no probe; 1: a probe is attached to the sending direction at start-up; 2: it is additionally replaced from
+    /// the handler - before every second burst and after the first message of every burst, i.e. while the channel
+    /// transmits and holds queued messages. Every transmission must be seen by exactly one probe, when it starts.
+    #[serde(default)]
+    pub probe: u8,
 }
 
 impl Case {
@@ -89,6 +94,24 @@ enum Rec {
         queued: usize,
         acc: usize,
     },
+    Probed {
+        seq: u64,
+        t: u64,
+        /// which attachment saw it
+        generation: u32,
+    },
+}
+
+struct SeqProbe {
+    generation: u32,
+}
+impl des::net::channel::ChannelProbe for SeqProbe {
+    fn on_message_transmit(&mut self, _: &ChannelMetrics, msg: &Message) {
+        if let Some(p) = msg.try_content::<Pay>() {
+            let generation = self.generation;
+            LOG.with(|l| l.borrow_mut().push(Rec::Probed { seq: p.seq, t: now_ns(), generation }));
+        }
+    }
 }
 
 thread_local! {
@@ -102,6 +125,7 @@ fn now_ns() -> u64 {
 struct Tx {
     case: Case,
     next_seq: u64,
+    probes: u32,
 }
 
 impl Tx {
@@ -115,7 +139,15 @@ impl Tx {
         let sizes = self.case.offers[idx].1.clone();
         let gate = current().gate("out", 0).expect("gate out");
         let ch = gate.channel().expect("channel on out");
-        for size in sizes {
+        if self.case.probe == 2 && idx % 2 == 1 {
+            self.probes += 1;
+            ch.attach_probe(SeqProbe { generation: self.probes });
+        }
+        for (k, size) in sizes.into_iter().enumerate() {
+            if self.case.probe == 2 && k == 1 {
+                self.probes += 1;
+                ch.attach_probe(SeqProbe { generation: self.probes });
+            }
             let seq = self.next_seq;
             self.next_seq += 1;
             let (busy_before, fin_before, q_before, _, _) = ch.verif_state();
@@ -150,6 +182,10 @@ impl Tx {
 
 impl Module for Tx {
     fn at_sim_start(&mut self, _: usize) {
+        if self.case.probe > 0 {
+            let ch = current().gate("out", 0).expect("gate out").channel().expect("channel on out");
+            ch.attach_probe(SeqProbe { generation: 0 });
+        }
         if self.case.timers_upfront {
             for (i, (t, _)) in self.case.offers.iter().enumerate() {
                 schedule_at(Message::default().kind(TIMER).id(i as u16), SimTime::from_duration(Duration::from_nanos(*t)));
@@ -198,7 +234,7 @@ pub fn execute(case: &Case, seed: u64) -> Observed {
     let case2 = case.clone();
     let res = vcommon::catch(move || {
         let mut sim = Sim::new(());
-        sim.node("tx", Tx { case: case2, next_seq: 0 });
+        sim.node("tx", Tx { case: case2, next_seq: 0, probes: 0 });
         sim.node("rx", Rx);
         let out = sim.gate("tx", "out");
         let inp = sim.gate("rx", "in");
@@ -272,6 +308,8 @@ pub struct Obs {
     pub zero_tx: u64,
     pub bursts: u64,
     pub known_zero_tx_overtake: u64,
+    pub probed: u64,
+    pub probe_generations: u64,
 }
 
 pub type Finding = (&'static str, String);
@@ -378,6 +416,7 @@ pub fn check(case: &Case, o: &Observed) -> (Vec<Finding>, Obs) {
     let mut last_offer_t: Option<u64> = None;
     let mut arrivals: Vec<(u64, u64)> = Vec::new();
     let mut end: Option<(bool, usize, usize)> = None;
+    let mut probed: Vec<(u64, u64, u32)> = Vec::new();
     for rec in &o.log {
         match rec {
             Rec::Arrive { seq, t, last_gate_ok } => {
@@ -387,6 +426,7 @@ pub fn check(case: &Case, o: &Observed) -> (Vec<Finding>, Obs) {
                 arrivals.push((*seq, *t));
             }
             Rec::End { busy, queued, acc } => end = Some((*busy, *queued, *acc)),
+            Rec::Probed { seq, t, generation } => probed.push((*seq, *t, *generation)),
             Rec::Offer { seq, t, len, busy_before, finish_before, busy_after, finish_after, queued_before, queued_after, acc_after, actual_after } => {
                 obs.offers += 1;
                 if last_offer_t == Some(*t) {
@@ -511,6 +551,26 @@ pub fn check(case: &Case, o: &Observed) -> (Vec<Finding>, Obs) {
             break;
         }
     }
+    if case.probe > 0 && f.is_empty() {
+        // every transmission is seen by exactly one probe, at the instant it starts, in transmission order
+        let want: Vec<(u64, u64)> = a.start_order.iter().map(|s| (*s, a.started[s].0)).collect();
+        let got: Vec<(u64, u64)> = probed.iter().map(|(s, t, _)| (*s, *t)).collect();
+        if got != want {
+            let i = got.iter().zip(&want).position(|(x, y)| x != y).unwrap_or(got.len().min(want.len()));
+            f.push((
+                "probe",
+                format!(
+                    "the probes saw {} transmissions, the reference has {}; first difference at #{i}: seen {:?}, expected {:?} (seq, start ns)",
+                    got.len(),
+                    want.len(),
+                    got.get(i),
+                    want.get(i)
+                ),
+            ));
+        }
+        obs.probed = probed.len() as u64;
+        obs.probe_generations = probed.iter().map(|p| p.2).collect::<std::collections::BTreeSet<_>>().len() as u64;
+    }
     if case.jitter_ns == 0 && f.is_empty() {
         // zero jitter: deliveries preserve the offer order
         let order: Vec<u64> = arrivals.iter().map(|(s, _)| *s).collect();
@@ -607,7 +667,7 @@ pub fn gen_case(rng: &mut Rng) -> Case {
         offers.push((t, sizes));
         t = t.saturating_add(gap.max(1)).min(u64::MAX / 4);
     }
-    Case { bitrate, latency_ns, jitter_ns, policy, offers, timers_upfront: rng.chance(1, 2), reverse_connect: rng.chance(1, 2) }
+    Case { bitrate, latency_ns, jitter_ns, policy, offers, timers_upfront: rng.chance(1, 2), reverse_connect: rng.chance(1, 2), probe: rng.below(3) as u8 }
 }
 
 fn case_hash(c: &Case) -> u64 {
@@ -641,6 +701,7 @@ fn grid_cases() -> Vec<Case> {
                             offers: vec![(0, vec![body; burst]), (tx_ns(len, bitrate).max(1) * 20, vec![body; 2])],
                             timers_upfront: true,
                             reverse_connect: burst % 2 == 0,
+                            probe: (burst % 3) as u8,
                         });
                     }
                 }
@@ -797,6 +858,10 @@ pub fn cmd(args: &Args) -> Report {
         rep.count("offers_at_the_busy_boundary_resolved_by_flag", obs.ambiguous);
         rep.count("zero_length_transmissions", obs.zero_tx);
         rep.count("zero_tx_overtakes_at_zero_latency", obs.known_zero_tx_overtake);
+        rep.count("transmissions_seen_by_a_probe", obs.probed);
+        if obs.probe_generations > 1 {
+            rep.count("cases_with_the_probe_replaced_while_the_channel_is_in_use", 1);
+        }
         rep.count("burst_offers_within_one_handler", obs.bursts);
         if case.jitter_ns > 0 {
             rep.count("cases_with_jitter", 1);
